@@ -50,8 +50,7 @@ func (td TypeDeclaration) CompletionAtPos(ctx context.Context, pos hcl.Pos) []la
 	case *hclsyntax.FunctionCallExpr:
 		// position in complex type name (or right behind it)
 		if eType.NameRange.ContainsPos(pos) || eType.NameRange.End.Byte == pos.Byte {
-			prefixLen := pos.Byte - eType.NameRange.Start.Byte
-			prefix := eType.Name[0:prefixLen]
+			prefix := functionNamePrefix(td.pathCtx, eType.NameRange, eType.Name, pos)
 
 			editRange := eType.Range()
 			return allTypeDeclarationsAsCandidates(prefix, editRange)
